@@ -29,9 +29,9 @@ def run(c: Check):
     tries = 0
     while len(pairs) < npairs + (1 if c.replay else 0) * 0 and tries < npairs * 4:
         tries += 1
-        d = g.graph(p_cycle=0.15, p_meta=0.1, p_pre=0.4, p_init=0.8)
+        d = g.graph(p_cycle=(0.9 if tries % 10 in (2, 8) else 0.15), p_meta=0.1, p_pre=0.4, p_init=0.8)
         # a quota of the rarer families: the producing task upstream, pre-task <-> init-task moves, init order
-        prefer = [None, "pre-to-init", "pre-to-init", None, "upstream-task", None, "init-order", "pre-to-init"][tries % 8]
+        prefer = [None, "pre-to-init", "cycle-target", None, "upstream-task", None, "init-order", "pre-to-init", "cycle-target", None][tries % 10]
         r = identgen.signature_edit(c.rng, d, prefer)
         if r is None:
             continue
@@ -82,7 +82,12 @@ def run(c: Check):
         if p["which"] == "collide":
             c.count("collides:" + str(fa == fb))
             continue     # agreement with the model is what is checked (correspondence)
-        if p["kind"] == "upstream-task":
+        if p["kind"] == "cycle-target" and p["b"].get("edited_node") is not None:
+            t = p["b"]["edited_node"]
+            if p["exp_a"]["nodes"][t] == p["exp_b"]["nodes"][t]:
+                c.count("edit-had-no-effect")
+                continue
+        elif p["kind"] == "upstream-task":
             # the edit sits in the producing task t: it counts when t really differs in the two built graphs and
             # the compared node reaches t in both (an action of the description may have failed or been overwritten)
             t = p["b"].get("edited_node")
@@ -121,7 +126,7 @@ def run(c: Check):
             if p["a"]["nodes"][t]["cls"] == "TaskSelf" and p["node"] in reach_all(p["exp_a"], t):
                 p["kind"] = "upstream-task:task-marks-own-parameter"
         # guard: the edit may have been neutralised by the build (e.g. value coerced); only count real changes
-        elif p["exp_a"]["nodes"][p["node"]] == p["exp_b"]["nodes"][p["node"]] and p["which"] == "raw" \
+        elif p["kind"] != "cycle-target" and p["exp_a"]["nodes"][p["node"]] == p["exp_b"]["nodes"][p["node"]] and p["which"] == "raw" \
                 and p["exp_a"]["classes"][p["exp_a"]["nodes"][p["node"]]["cls"]] == p["exp_b"]["classes"][p["exp_b"]["nodes"][p["node"]]["cls"]]:
             c.count("edit-had-no-effect")
             continue
